@@ -132,6 +132,32 @@ def gen_case(rng, neutral):
     raise RuntimeError("could not draw a null-free case")
 
 
+def add_subsample_family(rng, spec, table):
+    """Subsampling under depth: a null (or a bad value) in rows that the
+    head / tail / sample option may leave out.  Which level nullability
+    belongs to is not documented, but R3 (full <=> SCHEMA_ONLY and DATA_ONLY)
+    does not depend on that - only on the rows being selected in the same way
+    at every depth.  -> validate kwargs, or None when the case does not fit."""
+    cols = table["columns"]
+    n = len(cols[0]["values"]) if cols else 0
+    if n < 3 or (table.get("index") or {}).get("levels"):
+        return None
+    holders = [c for c in cols if c["phys"] in ("float64", "str", "datetime")]
+    if holders and rng.random() < 0.8:
+        c = rng.choice(holders)
+        where = rng.choice(["last", "first", "middle"])
+        i = {"last": n - 1, "first": 0, "middle": n // 2}[where]
+        c["values"][i] = None
+    k = rng.choice(["head", "tail", "sample", "head+tail"])
+    if k == "head":
+        return {"head": rng.randint(1, n - 1)}
+    if k == "tail":
+        return {"tail": rng.randint(1, n - 1)}
+    if k == "sample":
+        return {"sample": rng.randint(1, n - 1), "random_state": rng.randrange(5)}
+    return {"head": 1, "tail": 1}
+
+
 # ---------------------------------------------------------------- restriction
 def _mark(spec):
     s = copy.deepcopy(spec)
@@ -281,14 +307,15 @@ def polars_schema(spec, force_coerce=False):
 
 
 # ---------------------------------------------------------------- execution
-def verdict(schema, obj, depth, lazy):
+def verdict(schema, obj, depth, lazy, vkw=None):
     """Real pandera verdict under ``depth`` (None = no context = defaults).
+    ``vkw``: head / tail / sample / random_state passed on to validate.
     -> ('accept'|'reject'|'exc', Outcome)"""
     import polars as pl
     import pandera.config as c
 
     def go():
-        out = H.run_validate(schema, obj, lazy=lazy)
+        out = H.run_validate(schema, obj, lazy=lazy, **(vkw or {}))
         if out.kind == "ok" and isinstance(out.result, pl.LazyFrame):
             try:
                 out.result.collect()
